@@ -4,6 +4,7 @@ with the timeline of ``vf.c02_judge`` after every read (prefix check) and at the
 import struct
 
 from . import c02_fast as F
+from . import c02_judge as J
 from . import rfc6455_ref as ref
 from .ws import WS, is_open
 
@@ -130,6 +131,9 @@ class Obs:
         self._wesc = len(ep.world.escaped)
         self.other_frames = 0
         self.wbuf = b""
+        self.wraw = bytearray()     # every octet handed to the transport, in order
+        self.wjudged = 0            # len(wraw) when the written octets were last judged (see Case.judge_written)
+        self.wframes = 0            # complete frames found in wraw by the strict judge
 
     def update(self):
         ch = self.ep.chron
@@ -151,6 +155,7 @@ class Obs:
                 elif k == "onClose" and self.onclose is None:
                     self.onclose = (e[2], e[3], e[4])
             elif t == "write":
+                self.wraw += e[1]
                 frames, rest = ref.parse_frames(self.wbuf + e[1], allow_partial=True)
                 self.wbuf = rest
                 for f in frames:
@@ -223,6 +228,7 @@ class Case:
         self.env, self.R, self.ctx, self.stream, self.tl = env, R, ctx, stream, tl
         self.replay, self.label = replay, label
         self.bad = False
+        self.tag = ""       # prefix of the 'what' part of violation keys ("interleaved/": other connections were open)
 
     def escaped_violation(self, k, obs):
         """exception out of the read callback.  Decompressor errors are keyed by mechanism only (the frame that
@@ -241,7 +247,7 @@ class Case:
         tl = self.tl
         clause = tl.failure.clause if tl.failure else ("valid-close" if tl.close else "no-violation")
         if key is None:
-            key = "C02/%s/%s/%s" % (self.ctx.key(), what, clause)
+            key = "C02/%s/%s%s/%s" % (self.ctx.key(), self.tag, what, clause)
         self.bad = True
         f = obs.failure()
         detail = {"ctx": self.ctx.name(), "label": self.label, "stream_len": len(self.stream),
@@ -256,46 +262,76 @@ class Case:
             detail.update(extra)
         self.R.violation(key, text, detail, self.replay)
 
-    def run(self, chunks, online=True):
-        """Feed the chunks; returns the comparable final trace (or None when not comparable)."""
-        env, R, tl, ctx = self.env, self.R, self.tl, self.ctx
-        ep = env.open(ctx)
-        obs = Obs(ep)
-        settle = env.settle
-        k = 0
+    def run(self, groups, online=True):
+        """Feed the reads; returns the comparable final trace (or None when not comparable).  ``groups``: list of
+        reads; a read is either one chunk (bytes) or a list of chunks that reach the protocol back to back inside
+        ONE read event (asyncio: ``feed_burst``; Twisted, where dataReceived() is synchronous: ordinary reads)."""
         try:
-            for c in chunks:
-                ep.feed(c)
-                settle()
-                k += len(c)
-                if online and not self.bad:
-                    self.verify(obs, k, False)
-            if k != len(self.stream):
-                raise RuntimeError("harness: segmentation does not cover the stream")
-            if not self.bad:
-                self.verify(obs, k, True)
-            f = obs.failure()
-            # teardown (and the unclean-close report of fail-by-drop)
-            if ep.close_requested:
-                ep.finish_close()
-                settle()
-                obs.update()
-                if not self.bad and f and f[0] == "drop" and tl.failure and (tl.grey_from is None or k <= tl.grey_from):
-                    R.count("onclose_reports_checked")
-                    oc = obs.onclose
-                    if oc is None or oc[0] is not False or oc[1] != 1006:
-                        self.violation("onclose-report", "after failing by drop onClose was %r, expected (False, 1006, ...)" % (oc,), k, obs)
-            else:
-                ep.peer_close(clean=False)
-                settle()
-                obs.update()
-            if obs.escaped and not self.bad:
-                self.escaped_violation(k, obs)
-            reason = obs.impl_reason()
-            if reason and REASON_HOOK is not None and not self.bad:
-                REASON_HOOK(R, ctx, tl, reason)
+            self.begin()
+            for g in groups:
+                self.feed(g, online)
+            return self.finish()
         finally:
-            env.done()
+            self.env.done()
+
+    def begin(self):
+        self.ep = self.env.open(self.ctx)
+        self.obs = Obs(self.ep)
+        self.k = 0
+        self.nburst = 0
+
+    def feed(self, g, online=True):
+        ep, settle = self.ep, self.env.settle
+        if isinstance(g, (bytes, bytearray)):
+            ep.feed(g)
+            settle()
+            self.k += len(g)
+        else:
+            fb = getattr(ep, "feed_burst", None)
+            if fb is not None and len(g) > 1:
+                handed = fb(g)
+                settle()
+                if handed > 1:
+                    self.nburst += 1
+                    self.R.count("aio_burst_reads")
+                    self.R.count("aio_burst_chunks", handed)
+            else:
+                for c in g:
+                    ep.feed(c)
+                    settle()
+            self.k += sum(len(c) for c in g)
+        if online and not self.bad:
+            self.verify(self.obs, self.k, False)
+
+    def finish(self):
+        env, R, tl, ctx = self.env, self.R, self.tl, self.ctx
+        ep, obs, settle, k = self.ep, self.obs, self.env.settle, self.k
+        if k != len(self.stream):
+            raise RuntimeError("harness: segmentation does not cover the stream")
+        if not self.bad:
+            self.verify(obs, k, True)
+        f = obs.failure()
+        # teardown (and the unclean-close report of fail-by-drop)
+        if ep.close_requested:
+            ep.finish_close()
+            settle()
+            obs.update()
+            if not self.bad and f and f[0] == "drop" and tl.failure and (tl.grey_from is None or k <= tl.grey_from):
+                R.count("onclose_reports_checked")
+                oc = obs.onclose
+                if oc is None or oc[0] is not False or oc[1] != 1006:
+                    self.violation("onclose-report", "after failing by drop onClose was %r, expected (False, 1006, ...)" % (oc,), k, obs)
+        else:
+            ep.peer_close(clean=False)
+            settle()
+            obs.update()
+        if obs.escaped and not self.bad:
+            self.escaped_violation(k, obs)
+        if not self.bad:
+            self.judge_written(obs, k, True)
+        reason = obs.impl_reason()
+        if reason and REASON_HOOK is not None and not self.bad:
+            REASON_HOOK(R, ctx, tl, reason)
         if tl.grey_from is not None and len(self.stream) > tl.grey_from:
             return None
         if tl.failure_status(len(self.stream)) == "maybe":
@@ -304,6 +340,46 @@ class Case:
         deliv = [d for d, i in zip(obs.deliv, obs.deliv_idx) if fidx is None or i < fidx]
         return (tuple(deliv), tuple(obs.pongs), f[0] if f else None)
 
+    def judge_written(self, obs, k, final):
+        """Whatever the endpoint writes (pongs, close frames - the application never sends in this check) is what
+        its PEER has to read: the octets are judged by the same RFC 6455 judge in the peer's role.  A pong or a
+        close frame the peer must reject (payload > 125 octets / extended length on a control frame, masking wrong
+        for the role, RSV bits, non-minimal length, close payload of one octet / unsendable code / reason not UTF-8)
+        answers nothing and announces nothing.  Asserted in every zone, grey or not.  -> True when a violation
+        was reported."""
+        if len(obs.wraw) == obs.wjudged and not final:
+            return False
+        obs.wjudged = len(obs.wraw)
+        if not obs.wraw:
+            return False
+        peer = "client" if self.ctx.role == "server" else "server"
+        wt = J.judge(peer, bytes(obs.wraw), self.ctx.pmce)
+        obs.wframes = wt.frames
+        clause = None
+        if wt.failure is not None:
+            clause = wt.failure.clause
+        elif final and wt.incomplete:
+            clause = "truncated-frame"
+        if clause is not None:
+            self.violation("malformed-reply", "the octets written by the endpoint are not frames its peer can accept: judged in the "
+                           "peer's role they are a violation (%s)" % clause, k, obs,
+                           extra={"written_head_hex": bytes(obs.wraw[:64]).hex(), "written_len": len(obs.wraw), "written_judged": wt.summary()},
+                           key="C02/%s/malformed-reply/%s" % (self.ctx.key(), clause))
+            return True
+        if final:
+            R = self.R
+            R.count("reply_frames_judged", obs.wframes)
+            f = obs.failure()
+            if obs.closes and f is not None and f[0] in FAIL_STATUS:
+                R.count("failure_close_frames_judged")
+                n = len(obs.closes[0][1])
+                R.seen("failure_reason_lengths", "%d-%d" % (n // 20 * 20, n // 20 * 20 + 19))
+                if n >= 100:
+                    R.count("failure_close_reason_ge_100_octets_judged")
+                if "grey-deflate" in self.tl.saw:
+                    R.count("undecodable_deflate_failure_closes_judged")
+        return False
+
     # ---------------------------------------------------------------------------------------------
     def verify(self, obs, k, final):
         tl, ctx, R = self.tl, self.ctx, self.R
@@ -311,6 +387,8 @@ class Case:
         R.count("prefix_checks")
         if obs.escaped:
             self.escaped_violation(k, obs)
+            return
+        if not final and self.judge_written(obs, k, False):
             return
         grey = tl.grey_from is not None and k > tl.grey_from
         exp = tl.due(tl.grey_from if grey else k)
